@@ -334,6 +334,12 @@ package posix
 // the attributes of a replaced object are removed before those of the new one are written (they are not stored with the
 // file in every metadata store); directory objects (no file handle) are handled by their own branch
 //@   at-call meta.MetadataStorer.StoreAttribute {C01} [the-old-attributes-are-removed-first] when $0 != nil :: requires called("meta.MetadataStorer.DeleteAttributes")
+// a directory object keeps its directory (and the attributes on it): its old user metadata are looked up and removed before
+// the new ones are stored
+//@   at-call meta.MetadataStorer.StoreAttribute {C01} [the-old-user-metadata-of-a-directory-object-are-removed-first] when $0 == nil && strings.HasSuffix(old(*po.Key), "/") :: \
+//@        requires called("posix.Posix.loadObjectMetaData")
+//@   at-call posix.Posix.loadObjectMetaData {C01} [the-old-user-metadata-looked-up-are-those-of-the-object-written] requires $1 == *po.Bucket && $2 == *po.Key
+//@   at-call meta.MetadataStorer.DeleteAttribute {C01} [the-attributes-removed-are-those-of-the-object-written-2] requires $0 == *po.Bucket && $1 == *po.Key
 //@   at-call meta.MetadataStorer.DeleteAttributes {C01} [the-attributes-removed-are-those-of-the-object-written] requires $0 == *po.Bucket && $1 == *po.Key
 //@   at-call meta.MetadataStorer.StoreAttribute {C01} [etag-attribute-is-the-md5-of-what-was-copied] when $3 == etagkey && called("posix.Posix.openTmpFile") :: requires called("hash.Hash.Sum") && called("io.Copy") && len($4) == len(etag) && (forall i int :: 0 <= i && i < len($4) ==> $4[i] == etag[i])
 //@   at-return {C01} [answered-etag-is-the-stored-one] when err == nil && called("posix.tmpfile.link") :: ensures ret0.ETag == etag
